@@ -77,8 +77,11 @@ def generate(rng, tier):
             s2["props"] = {"ver": "2"}
             # an update follows the previous announcement burst (ends tdone + 0.45 s) by more than one second: the
             # cache-flush bit only retires records received more than 1 s ago (RFC 6762 10.2)
-            ops.append({"t": round(tdone + r2.choice([0.1, 0.3, 1.6, 2.0, 3.0, 8.0]) + r2.random() * r2.choice([0.1, 1.0]), 6),
-                        "op": "update", "h": h, "svc": s2})
+            tu = round(tdone + r2.choice([0.1, 0.3, 1.6, 2.0, 3.0, 8.0]) + r2.random() * r2.choice([0.1, 1.0]), 6)
+            ops.append({"t": tu, "op": "update", "h": h, "svc": s2})
+            if r2.random() < 0.35:
+                # ... and back to the first version shortly afterwards (a state that flips: on, off, on)
+                ops.append({"t": round(tu + r2.choice([0.3, 0.8, 1.5, 3.0]), 6), "op": "update", "h": h, "svc": dict(s)})
     nb = r2.choice([1, 2, 3, 4])
     for i in range(nb):
         h = r2.choice(hosts)
@@ -305,22 +308,10 @@ def _oracle(w, drv, sc, t_end, stats, out):
         # a version replaced less than 1.5 s before the lookup started may still be the advertised one at this host
         # (link delay plus the one-second grace of cache-flush)
         vers = [v for v in history.get(n, []) if v[0] <= t_b and (v[1] is None or v[1] >= t_a - 1.5)]
-        # RFC 6762 10.2: a cache-flush record retires only copies received more than 1 s earlier. When the owner sent the
-        # previous version less than ~1.3 s before (or, through delay/duplication, after) the update, both generations
-        # stay cached at the receiver until the old TTL runs out, and either may be reported.
-        from sim.svc import SvcRecords as _SR
-
-        for k in range(len(history.get(n, [])) - 1):
-            vo = history[n][k]
-            if vo in vers or vo[1] is None:
-                continue
-            old_srv = _SR(vo[2]).srv.ident()
-            t_u = vo[1]
-            if any(tx.t >= t_u - 1.3 and tx.msg is not None and tx.msg.is_response and
-                   any(r.ident() == old_srv and r.ttl > 0 for r in tx.msg.records())
-                   for tx in w.net.trace if tx.host == reg_host(history, n)):
-                if t_a <= t_u + _SR(vo[2]).host_ttl:
-                    vers.append(vo)
+        # RFC 6762 10.2: a cache-flush record retires only copies received more than 1 s earlier, so after a quick update
+        # both generations of SRV/TXT can stay cached at the receiver until the old TTL runs out. The generation that
+        # was received last is the advertised one - all announcements of the update have arrived 1.5 s after it - and
+        # that is the one a lookup has to resolve; older addresses of the host may still be listed (host_addrs below).
         # registered (in some version) without a gap for the whole lookup window?
         cover = t_a
         whole = False
